@@ -29,7 +29,7 @@ def GEv.pt (g : GEv) : Point :=
   | .stop => ⟨g.r.hi, g.r.len, g.r.sloc, .stop⟩
 
 def srank (R : Rng) : Nat := R.lo * 1024 + (512 + R.len)
-def erank (R : Rng) : Nat := R.hi * 1024 + (255 - R.len)
+def erank (R : Rng) : Nat := R.hi * 1024 + ekey R.len
 def grank (g : GEv) : Nat := rank g.pt
 
 theorem grank_start (R : Rng) : grank ⟨R, .start⟩ = srank R := rfl
@@ -44,9 +44,11 @@ structure RngWF (F : List Rng) : Prop where
   nodup : F.Nodup
   bounds : ∀ R ∈ F, R.lo < R.hi ∧ R.hi ≤ TOP ∧ R.len ≤ 128
   lam : ∀ R ∈ F, ∀ R' ∈ F, R.sub R' ∨ R'.sub R ∨ R.hi ≤ R'.lo ∨ R'.hi ≤ R.lo
-  /-- a range strictly inside another one that shares its start (or its end) is strictly longer -/
+  /-- a range strictly inside another one that shares its start is strictly longer; if it shares its
+  end, its end point comes first (`ekey`: it is strictly longer, the implicit IPv4 null range counting
+  as a /96) -/
   nest : ∀ R ∈ F, ∀ R' ∈ F, R ≠ R' → R.sub R' →
-    (R.lo = R'.lo → R'.len < R.len) ∧ (R.hi = R'.hi → R.hi ≠ TOP → R'.len < R.len)
+    (R.lo = R'.lo → R'.len < R.len) ∧ (R.hi = R'.hi → R.hi ≠ TOP → ekey R.len < ekey R'.len)
   base : ∃ R0 ∈ F, R0.lo = 0 ∧ R0.hi = TOP ∧ R0.len = 0
   null_len : ∀ R ∈ F, R.loc = none → R.len = 0
 
@@ -78,7 +80,9 @@ def IsHead (F : List Rng) (t : Nat) (H : Rng) : Prop :=
 
 theorem srank_lt_erank {F : List Rng} (hF : RngWF F) {R : Rng} (hR : R ∈ F) : srank R < erank R := by
   obtain ⟨h1, _, h3⟩ := hF.bounds R hR
-  unfold srank erank; omega
+  unfold srank erank
+  have h5 : (R.lo + 1) * 1024 ≤ R.hi * 1024 := Nat.mul_le_mul_right 1024 h1
+  omega
 
 /-- the head of the stack is inside every other open range -/
 theorem head_inner {F : List Rng} (hF : RngWF F) {t : Nat} {H : Rng} {st : List Rng}
@@ -97,6 +101,8 @@ theorem head_inner {F : List Rng} (hF : RngWF F) {t : Nat} {H : Rng} {st : List 
   obtain ⟨bH1, bH2, bH3⟩ := hF.bounds H hHF
   obtain ⟨bX1, bX2, bX3⟩ := hF.bounds X hXF
   have hN := hF.nest X hXF H hHF hXH
+  have kH := ekey_lt H.len
+  have kX := ekey_lt X.len
   unfold srank erank at *
   unfold Rng.sub at hN
   rcases hF.lam H hHF X hXF with h | h | h | h
@@ -227,6 +233,8 @@ theorem Inv.pop {F : List Rng} (hF : RngWF F) {M : List GEv} {t : Nat} {R : Rng}
     obtain ⟨bR1, bR2, bR3⟩ := hF.bounds R hRF
     have hN1 := hF.nest R hRF H hHF (Ne.symm hne)
     have hN2 := hF.nest H hHF R hRF hne
+    have kH := ekey_lt H.len
+    have kR := ekey_lt R.len
     unfold srank erank at *
     unfold Rng.sub at hN1 hN2
     rcases hF.lam R hRF H hHF with h | h | h | h
@@ -247,6 +255,7 @@ theorem Inv.pop {F : List Rng} (hF : RngWF F) {M : List GEv} {t : Nat} {R : Rng}
     have h1 := hc.start_ge hR0F h
     rw [grank_stop] at h1
     obtain ⟨bR1, bR2, bR3⟩ := hF.bounds H hRF
+    have kH := ekey_lt H.len
     unfold srank erank at *
     omega
   have hR0st : R0 ∈ st' := by
@@ -345,6 +354,7 @@ theorem stack_le_one {F : List Rng} (hF : RngWF F) (hN : NoResume F) {M : List G
       · have h' : t < erank X := by rcases hXe with h | h; exact absurd h hTop; exact h
         have := hc.stop_ge hXF hTop h'
         rw [grank_start] at this
+        have kX := ekey_lt X.len
         unfold srank erank at this; rw [hlo, hlen] at this; omega
     obtain ⟨e1, e2⟩ := hN R hRF hlo hlen X hXF hXlo hXhi
     unfold srank; rw [e1, e2]
